@@ -108,11 +108,11 @@ theorem exec_erase (P : Params) (s : Screen) (n : Nat) (hn : 1 ≤ n) :
     s'.grid s.cur.1 = over (s.grid s.cur.1) s.cur.2 (s.cur.2 + n) (fun _ => .glyph 32 s.face) ∧
     (∀ r', r' ≠ s.cur.1 → s'.grid r' = s.grid r') ∧
     s'.place = s.place ∧ s'.cur = s.cur ∧ s'.face = s.face := by
-  have hm : max n 1 = n := by omega
+  have hm : n ≠ 0 := by omega
   refine ⟨?_, ?_, ?_, ?_, ?_⟩
-  · simp only [exec, hm]; exact fill_clobber_row _ _ _ _ _
-  · intro r' h; simp only [exec, hm]; exact fill_clobber_other _ _ _ _ _ r' h
-  all_goals simp [exec]
+  · simp only [exec, hm, if_false]; exact fill_clobber_row _ _ _ _ _
+  · intro r' h; simp only [exec, hm, if_false]; exact fill_clobber_other _ _ _ _ _ r' h
+  all_goals simp [exec, hm]
 
 theorem exec_narrow (P : Params) (s : Screen) (ch : Nat) (hw : P.width ch = 1) :
     let s' := exec P s (.char ch)
